@@ -101,6 +101,10 @@ func sim(casesPath, obsPath string) {
 		out, out2 := lib.EvalTwice(forest, g.Text, lib.AsResources(mr1), nil, func() []fhirpath.EvaluateOption { return opts })
 		mut := snap.Report()
 		mut["reeval_differs"] = !lib.SameOutcome(out, out2)
+		if !lib.SameOutcome(out, out2) {
+			// the collection algebra holds for every evaluation, not only the first one
+			out = lib.Outcome{"k": "panic", "site": "unstable", "msg": "the same compiled expression evaluated again on the same inputs gave another outcome"}
+		}
 		if err := w.Write(map[string]any{"id": g.ID, "ast": g.Ast, "src": g.Text, "out": out, "kind": "sim", "mut": mut}); err != nil {
 			lib.Fatal("%v", err)
 		}
@@ -200,6 +204,10 @@ func main() {
 		out, out2 := lib.EvalTwice(forest, g.Text, lib.AsResources(mr1), nil, func() []fhirpath.EvaluateOption { return opts })
 		mut := snap.Report()
 		mut["reeval_differs"] = !lib.SameOutcome(out, out2)
+		if !lib.SameOutcome(out, out2) {
+			// the collection algebra holds for every evaluation, not only the first one
+			out = lib.Outcome{"k": "panic", "site": "unstable", "msg": "the same compiled expression evaluated again on the same inputs gave another outcome"}
+		}
 		if err := w.Write(map[string]any{"id": g.ID, "cs": g.Cs, "src": g.Text, "out": out, "kind": "prog", "mut": mut}); err != nil {
 			lib.Fatal("%v", err)
 		}
